@@ -34,8 +34,8 @@ def run(prop, tier):
             res.proof_break("correspondence update-model vs vhdlFile.update at %s" % fl["site"], {"detail": fl["detail"], "input": fl.get("input")})
     if prop in ("C01", "C03"):
         # the B-full case family: correspondence of case_utils / formal-part / consistent_* / the five fix functions
-        # with the Lean model, and the search on the real code at the points the theorems exclude (extended
-        # identifiers, non-ASCII case pairs, duplicate case exceptions)
+        # with the Lean model, and the search on the real code at the points the theorems exclude (formerly extended
+        # identifiers — repaired, now a theorem —, non-ASCII case pairs, duplicate case exceptions)
         import props_bcase
 
         props_bcase.extra(res, tier, prop)
